@@ -78,22 +78,25 @@ Proof. intros Ho Hc. eapply fdt_weaken; [apply fdt_call| |]; rewrite Ho; try rew
 Definition ok1 {A} (r : outcome A) : Z := match r with Ok _ => 1 | _ => 0 end.
 Definition some1 {A} (r : outcome (option A)) : Z := match r with Ok (Some _) => 1 | _ => 0 end.
 
+Definition held (ret : option nat) : Z := match ret with Some _ => 1 | None => 0 end.
+Ltac fcbn := cbn [held ok1 some1 is_fd fst snd].
+
 Create HintDb fdt discriminated.
 
 (** Automation: decompose the program syntactically; leaves are closed with
     the lemmas registered in the [fdt] database. *)
 Ltac fdt_leaf :=
   first [ solve [eauto 2 with fdt]
-        | eapply fdt_weaken; [solve [eauto 2 with fdt] | cbn; lia
-                              | intros; cbn; unfold ok1, some1, is_fd;
-                                repeat match goal with |- context [match ?x with _ => _ end] => destruct x end; cbn; lia ] ].
+        | eapply fdt_weaken; [solve [eauto 2 with fdt] | fcbn; lia
+                              | intros; fcbn; unfold ok1, some1, is_fd, held;
+                                repeat match goal with |- context [match ?x with _ => _ end] => destruct x end; lia ] ].
 
 Ltac fdt_auto :=
   cbn beta iota zeta;
   lazymatch goal with
   | |- fdt (Ret _) _ _ => apply fdt_ret; cbn; lia
   | |- fdt (bind _ _) _ _ =>
-      eapply fdt_bind; [ fdt_leaf | cbn; lia | let a := fresh "a" in intros a; cbn beta; fdt_auto ]
+      eapply fdt_bind; [ fdt_leaf | fcbn; lia | let a := fresh "a" in intros a; cbn beta; fdt_auto ]
   | |- fdt (match ?x with _ => _ end) _ _ => destruct x; fdt_auto
   | |- fdt (if ?b then _ else _) _ _ => destruct b; fdt_auto
   | |- fdt _ _ _ => fdt_leaf
@@ -166,10 +169,10 @@ Lemma fdt_bind_ret {A B} (a : A) (f : A -> prog B) pk d : fdt (f a) pk d -> fdt 
 Proof. intros H. exact H. Qed.
 
 Ltac fdt_ret_tac :=
-  apply fdt_ret; cbn;
+  apply fdt_ret; fcbn; unfold ok1, some1, is_fd, held;
   repeat match goal with
-         | |- context [if ?b then _ else _] => destruct b; cbn
-         | |- context [match ?x with _ => _ end] => destruct x; cbn
+         | |- context [if ?b then _ else _] => destruct b
+         | |- context [match ?x with _ => _ end] => destruct x
          end; lia.
 
 Ltac fdt_auto ::=
@@ -188,7 +191,7 @@ Ltac fdt_auto ::=
   | |- fdt (bind (Fresh _) _) _ _ => cbn [bind]; fdt_auto
   | |- fdt (bind (Mark _ _ _) _) _ _ => cbn [bind]; fdt_auto
   | |- fdt (bind _ _) _ _ =>
-      eapply fdt_bind; [ fdt_leaf | cbn; lia | let a := fresh "a" in intros a; cbn beta; fdt_auto ]
+      eapply fdt_bind; [ fdt_leaf | fcbn; lia | let a := fresh "a" in intros a; cbn beta; fdt_auto ]
   | |- fdt (Now _) _ _ => apply fdt_now; intros; fdt_auto
   | |- fdt (Trigger _ _) _ _ => apply fdt_trigger; intros; fdt_auto
   | |- fdt (RandShard _ _) _ _ => apply fdt_randshard; intros; fdt_auto
@@ -256,8 +259,8 @@ Lemma fdt_move_back_loop dir names : fdt (move_back_loop dir names) 1 (fun _ => 
 Proof. induction names as [|n rest IH]; cbn [move_back_loop]; fdt_auto. Qed.
 #[export] Hint Resolve fdt_evict_loop fdt_move_back_loop : fdt.
 
-(** [prune]: the listing plus one descriptor for re-stamping a reprieved entry. *)
-Lemma fdt_prune dir cap : fdt (prune dir cap) 2 (fun _ => 0).
+(** [prune]: the listing is closed before any entry is re-stamped: one at a time. *)
+Lemma fdt_prune dir cap : fdt (prune dir cap) 1 (fun _ => 0).
 Proof. unfold prune, try. fdt_auto. Qed.
 #[export] Hint Resolve fdt_prune : fdt.
 
@@ -291,20 +294,20 @@ Lemma fdt_cd_get d name : fdt (cd_get d name) 1 some1.
 Proof. unfold cd_get. destruct (validate name); fdt_auto. Qed.
 #[export] Hint Resolve fdt_cd_get : fdt.
 
-Lemma fdt_definitely_cleanup d base : fdt (definitely_cleanup d base) 2 (fun _ => 0).
+Lemma fdt_definitely_cleanup d base : fdt (definitely_cleanup d base) 1 (fun _ => 0).
 Proof. unfold definitely_cleanup, try. fdt_auto. Qed.
 #[export] Hint Resolve fdt_definitely_cleanup : fdt.
 
-Lemma fdt_maybe_cleanup d : fdt (maybe_cleanup d) 2 (fun _ => 0).
+Lemma fdt_maybe_cleanup d : fdt (maybe_cleanup d) 1 (fun _ => 0).
 Proof. unfold maybe_cleanup, try. fdt_auto. Qed.
 #[export] Hint Resolve fdt_maybe_cleanup : fdt.
 
 Lemma fdt_cd_publish ins d name value :
-  (forall a b, fdt (ins a b) 1 (fun _ => 0)) -> fdt (cd_publish ins d name value) 2 (fun _ => 0).
+  (forall a b, fdt (ins a b) 1 (fun _ => 0)) -> fdt (cd_publish ins d name value) 1 (fun _ => 0).
 Proof. intros Hins. unfold cd_publish, try. fdt_auto. Qed.
-Lemma fdt_cd_set d name value : fdt (cd_set d name value) 2 (fun _ => 0).
+Lemma fdt_cd_set d name value : fdt (cd_set d name value) 1 (fun _ => 0).
 Proof. apply fdt_cd_publish. apply fdt_insert_or_update. Qed.
-Lemma fdt_cd_put d name value : fdt (cd_put d name value) 2 (fun _ => 0).
+Lemma fdt_cd_put d name value : fdt (cd_put d name value) 1 (fun _ => 0).
 Proof. apply fdt_cd_publish. apply fdt_insert_or_touch. Qed.
 Lemma fdt_cd_touch d name : fdt (cd_touch d name) 1 (fun _ => 0).
 Proof. unfold cd_touch. destruct (validate name); fdt_auto. Qed.
@@ -318,13 +321,13 @@ Proof. unfold file_exists. fdt_auto. Qed.
 Lemma fdt_update_estimate h id u : fdt (update_estimate h id u) 0 (fun _ => 0).
 Proof. unfold update_estimate. fdt_auto. Qed.
 #[export] Hint Resolve fdt_sort_by_load fdt_file_exists fdt_update_estimate : fdt.
-Lemma fdt_force_maintain_shard h dir n t id : fdt (force_maintain_shard h dir n t id) 2 (fun _ => 0).
+Lemma fdt_force_maintain_shard h dir n t id : fdt (force_maintain_shard h dir n t id) 1 (fun _ => 0).
 Proof. unfold force_maintain_shard, try. fdt_auto. Qed.
 #[export] Hint Resolve fdt_force_maintain_shard : fdt.
 
 Lemma fdt_sh_publish ins h dir n t k v :
-  (forall d name value, fdt (ins d name value) 2 (fun _ => 0)) ->
-  fdt (sh_publish ins h dir n t k v) 2 (fun _ => 0).
+  (forall d name value, fdt (ins d name value) 1 (fun _ => 0)) ->
+  fdt (sh_publish ins h dir n t k v) 1 (fun _ => 0).
 Proof. intros Hins. unfold sh_publish, try. fdt_auto. Qed.
 
 Lemma fdt_sh_get dir n t k : fdt (sh_get dir n t k) 1 some1.
@@ -341,12 +344,12 @@ Lemma fdt_f_touch f k : fdt (f_touch f k) 1 (fun _ => 0).
 Proof. unfold f_touch. fdt_auto. Qed.
 Lemma fdt_f_temp_dir h f k : fdt (f_temp_dir h f k) 1 (fun _ => 0).
 Proof. unfold f_temp_dir. fdt_auto. Qed.
-Lemma fdt_f_set h f k v : fdt (f_set h f k v) 2 (fun _ => 0).
+Lemma fdt_f_set h f k v : fdt (f_set h f k v) 1 (fun _ => 0).
 Proof.
   unfold f_set, drop_opt, try. destruct f; [fdt_auto|].
   apply fdt_sh_publish. intros. apply fdt_cd_set.
 Qed.
-Lemma fdt_f_put h f k v : fdt (f_put h f k v) 2 (fun _ => 0).
+Lemma fdt_f_put h f k v : fdt (f_put h f k v) 1 (fun _ => 0).
 Proof.
   unfold f_put, drop_opt, try. destruct f; [fdt_auto|].
   apply fdt_sh_publish. intros. apply fdt_cd_put.
@@ -361,7 +364,6 @@ Definition judge_ok (j : judge) := forall b f, fdt (j b f) 0 (fun _ => 0).
 Definition pop_ok (p : populate) :=
   forall dst old, fdt (p dst old) 0 (fun _ => match old with Some _ => -1 | None => 0 end).
 
-Definition held (ret : option nat) : Z := match ret with Some _ => 1 | None => 0 end.
 
 Lemma fdt_ro_get_loop stack : forall chk k ret,
   match chk with Some ck => chk_ok ck | None => ret = None end ->
@@ -428,21 +430,21 @@ Proof.
   { eapply fdt_weaken; [apply fdt_ro_get; exact H| |auto]. unfold chk_extra. destruct (s_checker cfg); lia. }
   destruct (s_writer cfg) as [w|]; [|exact Hro].
   eapply fdt_bind; [apply fdt_f_get|unfold chk_extra; destruct (s_checker cfg); lia|].
-  intros [[f|]|e|]; cbn beta iota; cbn [some1]; try (fdt_auto; fail).
-  eapply fdt_bind; [apply (Hw f H)|lia|]. intros [f'|e|]; fdt_auto.
+  pose proof (fun f => Hw f H) as Hw'.
+  intros a. fdt_auto.
 Qed.
 
 Lemma fdt_cache_touch cfg k : fdt (cache_touch cfg k) 1 (fun _ => 0).
 Proof. unfold cache_touch, try. fdt_auto. Qed.
-Lemma fdt_write_impl b cfg k v : fdt (write_impl b cfg k v) 2 (fun _ => 0).
+Lemma fdt_write_impl b cfg k v : fdt (write_impl b cfg k v) 1 (fun _ => 0).
 Proof. unfold write_impl. fdt_auto. Qed.
 #[export] Hint Resolve fdt_cache_touch fdt_write_impl : fdt.
-Lemma fdt_cache_set cfg k v : fdt (cache_set cfg k v) 2 (fun _ => 0).
+Lemma fdt_cache_set cfg k v : fdt (cache_set cfg k v) 1 (fun _ => 0).
 Proof. unfold cache_set, try. fdt_auto. Qed.
-Lemma fdt_cache_put cfg k v : fdt (cache_put cfg k v) 2 (fun _ => 0).
+Lemma fdt_cache_put cfg k v : fdt (cache_put cfg k v) 1 (fun _ => 0).
 Proof. unfold cache_put, try. fdt_auto. Qed.
 (** the caller's NamedTempFile descriptor is consumed *)
-Lemma fdt_cache_write_temp b cfg k fd p : fdt (cache_write_temp b cfg k fd p) 1 (fun _ => -1).
+Lemma fdt_cache_write_temp b cfg k fd p : fdt (cache_write_temp b cfg k fd p) 0 (fun _ => -1).
 Proof. unfold cache_write_temp, try. fdt_auto. Qed.
 
 Lemma fdt_new_named_temp dir : fdt (new_named_temp dir) 1 ok1.
@@ -453,7 +455,7 @@ Proof. unfold get_tempfile, try. fdt_auto. Qed.
 #[export] Hint Resolve fdt_get_tempfile : fdt.
 
 Lemma fdt_promote cfg w k f :
-  fdt (promote cfg w k f) 2 (fun r => match r with Ok _ => 0 | _ => -1 end).
+  fdt (promote cfg w k f) 1 (fun r => match r with Ok _ => 0 | _ => -1 end).
 Proof. unfold promote, try_c. fdt_auto. Qed.
 #[export] Hint Resolve fdt_promote : fdt.
 
@@ -466,32 +468,41 @@ Proof.
 Qed.
 
 Lemma fdt_populate_phase cfg k pop old : pop_ok pop ->
-  fdt (populate_phase cfg k pop old) (3 - held old) (fun r => ok1 r - held old).
+  fdt (populate_phase cfg k pop old) (2 - held old) (fun r => ok1 r - held old).
 Proof.
   unfold populate_phase, pop_ok, try_c, try, skip. intros Hp.
   destruct (s_writer cfg) as [w|]; destruct old as [o|]; cbn [held]; fdt_auto.
 Qed.
 
-(** The whole lookup-or-populate operation: at most three descriptors, one of
-    which is the returned handle.  (Three also WITHOUT a checker: see
-    [C20_peak_refuted] — finding F5.) *)
+Definition chk1 (cfg : stack_cfg) : Z := match s_checker cfg with Some _ => 1 | None => 0 end.
+Arguments chk1 : simpl never.
+Arguments chk_extra : simpl never.
+
+(** The whole lookup-or-populate operation, maintenance included: at most two
+    descriptors (three when a checker is configured), one of which is the
+    returned handle. *)
 Theorem fdt_get_or_update cfg k j pop : cfg_ok cfg -> judge_ok j -> pop_ok pop ->
-  fdt (get_or_update cfg k j pop) 3 ok1.
+  fdt (get_or_update cfg k j pop) (2 + chk1 cfg) ok1.
 Proof.
   intros Hc Hj Hp. unfold get_or_update, try. unfold judge_ok in Hj.
   pose proof (fun f => fdt_with_checked cfg k f Hc) as Hw.
   pose proof (fun f => fdt_accept_checks cfg k pop f Hc Hp) as Ha.
   pose proof (fun old => fdt_populate_phase cfg k pop old Hp) as Hpp.
-  assert (Hextra : 0 <= chk_extra cfg <= 2) by (unfold chk_extra; destruct (s_checker cfg); lia).
-  assert (Hro : fdt (ro_get (s_readers cfg) (s_checker cfg) k) 2 some1).
-  { eapply fdt_weaken; [apply fdt_ro_get; exact Hc| |auto]. destruct (s_checker cfg); lia. }
+  assert (Hextra : chk_extra cfg = 2 * chk1 cfg /\ 0 <= chk1 cfg <= 1) by (unfold chk_extra, chk1; destruct (s_checker cfg); lia).
+  assert (Hro : fdt (ro_get (s_readers cfg) (s_checker cfg) k) (1 + chk1 cfg) some1).
+  { eapply fdt_weaken; [apply fdt_ro_get; exact Hc| |auto]. unfold chk1. destruct (s_checker cfg); lia. }
   eapply fdt_bind with (pk1 := 1) (d1 := some1).
   { destruct (s_writer cfg); fdt_auto. }
   { lia. }
-  intros a. fdt_auto.
+  intros [[f|]|e|]; cbn beta iota; cbn [some1].
+  4: fdt_auto. 3: fdt_auto.
+  - eapply fdt_bind; [apply (Hw f)|lia|]. intros [f'|e|]; cbn beta iota. 3: fdt_auto. 2: fdt_auto.
+    eapply fdt_bind; [apply (Hj true f')|lia|]. intros a; cbn beta iota.
+    destruct a; fdt_auto.
+  - fdt_auto.
 Qed.
 
-Theorem fdt_ensure cfg k pop : cfg_ok cfg -> pop_ok pop -> fdt (ensure cfg k pop) 3 ok1.
+Theorem fdt_ensure cfg k pop : cfg_ok cfg -> pop_ok pop -> fdt (ensure cfg k pop) (2 + chk1 cfg) ok1.
 Proof.
   intros. apply fdt_get_or_update; auto. intros b f. apply fdt_ret; lia.
 Qed.
